@@ -345,6 +345,32 @@ func (e *cEnv) assign(lhs ast.Expr, v Val, define bool) error {
 			}
 		}
 	}
+	// element of a local fixed-size array: a[i] = v (arrays are values: copy on write)
+	if ix, ok := lhs.(*ast.IndexExpr); ok {
+		if id, ok := ix.X.(*ast.Ident); ok {
+			if obj := e.p.Info.Uses[id]; obj != nil {
+				if _, isArr := obj.Type().Underlying().(*types.Array); isArr {
+					if cur, has := e.vars[obj]; has && cur.K == VList {
+						iv, err := e.eval(ix.Index)
+						if err != nil {
+							return err
+						}
+						if iv.K != VInt {
+							return undecidedf(lhs, "array index is not a concrete integer")
+						}
+						if iv.I < 0 || int(iv.I) >= len(cur.T) {
+							return &panicked{pos: lhs.Pos(), msg: fmt.Sprintf("index %d out of range [0,%d)", iv.I, len(cur.T))}
+						}
+						nt := append([]Val(nil), cur.T...)
+						nt[iv.I] = v
+						cur.T = nt
+						e.vars[obj] = cur
+						return nil
+					}
+				}
+			}
+		}
+	}
 	if st, ok := lhs.(*ast.StarExpr); ok && e.sym != nil {
 		pv, err := e.eval(st.X)
 		if err != nil {
@@ -497,6 +523,10 @@ func (e *cEnv) exec(s ast.Stmt) (ctrl, Val, error) {
 		a, err := e.eval(st.X)
 		if err != nil {
 			return cNext, Val{}, err
+		}
+		if a.K == VUnk {
+			// a counter that already depends on an unknown test stays unknown
+			return cNext, Val{}, e.assign(st.X, a, false)
 		}
 		if a.K != VInt {
 			return cNext, Val{}, undecidedf(s, "++/-- on a non-integer")
@@ -1021,6 +1051,10 @@ func (e *cEnv) eval(x ast.Expr) (Val, error) {
 			if err != nil {
 				return Val{}, err
 			}
+			if base.K == VVarPtr && base.cell != nil {
+				// p.f through a pointer to a local record
+				base = base.cell.env.vars[base.cell.obj]
+			}
 			if base.K == VStruct {
 				if v, ok := base.F[n.Sel.Name]; ok {
 					return v, nil
@@ -1049,9 +1083,9 @@ func (e *cEnv) eval(x ast.Expr) (Val, error) {
 				// pointer to a receiver byte
 				return Val{K: VFieldPtr, I: int64(idx)}, nil
 			}
-			if id, ok := n.X.(*ast.Ident); ok && e.sym != nil {
+			if id, ok := n.X.(*ast.Ident); ok {
 				if obj := info.Uses[id]; obj != nil {
-					if _, has := e.vars[obj]; has {
+					if cur, has := e.vars[obj]; has && (e.sym != nil || cur.K == VStruct) {
 						return Val{K: VVarPtr, cell: &varCell{env: e, obj: obj}}, nil
 					}
 				}
@@ -1524,6 +1558,35 @@ func (e *cEnv) evalCall(n *ast.CallExpr) (Val, error) {
 			if err != nil {
 				return Val{}, err
 			}
+			if rv.K == VVarPtr && rv.cell != nil {
+				// a reading method called through a pointer to a local record: the
+				// record's current value (a method that writes its receiver is not followed)
+				if ro := e.p.recvObj(fd); ro != nil && fd.Body != nil {
+					writes := false
+					ast.Inspect(fd.Body, func(x ast.Node) bool {
+						switch st := x.(type) {
+						case *ast.AssignStmt:
+							for _, l := range st.Lhs {
+								if nodeMentions(info, l, ro) {
+									writes = true
+								}
+							}
+						case *ast.IncDecStmt:
+							if nodeMentions(info, st.X, ro) {
+								writes = true
+							}
+						case *ast.UnaryExpr:
+							if st.Op == token.AND && nodeMentions(info, st.X, ro) {
+								writes = true
+							}
+						}
+						return true
+					})
+					if !writes {
+						rv = rv.cell.env.vars[rv.cell.obj]
+					}
+				}
+			}
 			if rv.K != VStruct && rv.K != VList && rv.K != VInt && rv.K != VStr {
 				return Val{}, undecidedf(n, "method call on something other than the vector object or a table record")
 			}
@@ -1783,6 +1846,26 @@ func stdlibSummary(fn *types.Func, args []Val, at ast.Node) (Val, bool, error) {
 		return vInt(-1), true, nil
 	case path == "strings" && name == "IndexByte" && len(args) == 2 && args[0].K == VStr && args[1].K == VInt:
 		return vInt(int64(strings.IndexByte(args[0].S, byte(args[1].I)))), true, nil
+	case path == "cmp" && name == "Or" && len(args) >= 1:
+		// the first argument that is not the zero value, else the zero value
+		for _, a := range args {
+			switch a.K {
+			case VInt:
+				if a.I != 0 {
+					return a, true, nil
+				}
+			case VStr:
+				if a.S != "" {
+					return a, true, nil
+				}
+			default:
+				return Val{}, false, nil
+			}
+		}
+		return args[len(args)-1], true, nil
+	case path == "strings" && name == "CutPrefix" && len(args) == 2 && args[0].K == VStr && args[1].K == VStr:
+		a, ok := strings.CutPrefix(args[0].S, args[1].S)
+		return Val{K: VTuple, T: []Val{vStr(a), vBool(ok)}}, true, nil
 	case path == "strings" && name == "HasPrefix" && len(args) == 2 && args[0].K == VStr && args[1].K == VStr:
 		return vBool(strings.HasPrefix(args[0].S, args[1].S)), true, nil
 	case path == "strings" && name == "Cut" && len(args) == 2 && args[0].K == VStr && args[1].K == VStr:
